@@ -39,6 +39,15 @@ fn main() {
         if xs.len() >= 4 { if let Ok(q) = lagrange(&xs, &ys, 1e-10) { for k in 0..=3 { if (q.get_coefficient(k) - pr.get_coefficient(k)).abs() > 1e-8 { found.push(format!("lagrange real nodes {xs:?}: coefficient {k} differs from the source polynomial")); break; } } } }
     }
     if lagrange(&[1.0, 2.0], &[1.0], 1e-8).is_ok() { found.push("lagrange accepted mismatched lengths".into()); }
+    // hermite: each single mismatch is an Err (never Ok, never a panic)
+    for (nx, ny, nd) in [(3usize, 3usize, 4usize), (2, 3, 2), (3, 2, 3), (3, 3, 2), (3, 4, 4)] {
+        let xs: Vec<f64> = (0..nx).map(|i| i as f64).collect(); let ys = vec![1.0; ny]; let ds = vec![0.5; nd];
+        match std::panic::catch_unwind(|| hermite(&xs, &ys, &ds, 1e-8).is_ok()) {
+            Ok(true) => found.push(format!("hermite accepted lengths {nx}/{ny}/{nd}")),
+            Ok(false) => {}
+            Err(_) => found.push(format!("hermite panicked on lengths {nx}/{ny}/{nd}")),
+        }
+    }
     found.truncate(8);
     println!("{{\"found\": {}, \"failures\": {:?}}}", !found.is_empty(), found);
     std::process::exit(if found.is_empty() { 0 } else { 1 });
